@@ -7,7 +7,8 @@ MODULES = ["MmtkModel.Props.C16"]
 THEOREMS = ["Mmtk.Sched.exit_only_on_request", "Mmtk.Sched.exit_once", "Mmtk.Sched.surrender_once",
             "Mmtk.Sched.goal_completed_once", "Mmtk.Sched.no_work_lost_frame", "Mmtk.Sched.no_work_lost",
             "Mmtk.Sched.respawn_restores", "Mmtk.Sched.gc_after_fork", "Mmtk.Sched.step_invE", "Mmtk.Sched.step_invF",
-            "Mmtk.Sched.step_other_exsu"]
+            "Mmtk.Sched.step_other_exsu",
+            "Mmtk.Sched.workers_exit_under_fairness", "Mmtk.Sched.workers_exit_after_goal", "Mmtk.Sched.exit_hypotheses_satisfiable", "Mmtk.Sched.step_late_stable"]
 KEYS = S.COMMON_KEYS + ("sched:surrender", "sched:exit-not-once", "sched:respawn-count", "sched:not-quiescent")
 
 META = {
